@@ -97,14 +97,17 @@ pub fn encode_mtrl(m: &MtrlSpec) -> Vec<u8> {
     }
     let dims: u32 = match m.table {
         2 => 0x42,
-        3 => 0x53,
+        3 | 6 => 0x53,
         // any other dimension byte 0x50..=0x5F: a colour table the reader keeps opaque (no rows) and a 32-row dye table
         4 => 0x50 | opaque_dims_nibble(m.flag_noise),
         _ => 0,
     };
     let mut flags = (m.flag_noise & 0xFFFF_F003) | (dims << 4);
     if m.table != 0 {
-        flags |= 0x4;
+        // kinds 5 and 6: the dye-table bit without the colour-table bit
+        if m.table < 5 {
+            flags |= 0x4;
+        }
         if m.dye {
             flags |= 0x8;
         }
@@ -116,8 +119,12 @@ pub fn encode_mtrl(m: &MtrlSpec) -> Vec<u8> {
             body.u16(*h);
         }
         if m.dye {
-            for d in m.dye_words.iter().take(if m.table == 4 { 32 } else { rows }) {
-                if m.table >= 3 {
+            for d in m.dye_words.iter().take(match m.table {
+                4 | 6 => 32,
+                5 => 16,
+                _ => rows,
+            }) {
+                if m.table >= 3 && m.table != 5 {
                     body.u32(*d);
                 } else {
                     body.u16(*d as u16);
